@@ -18,6 +18,26 @@ GEN_FILES = ['PathCheck.v']
 
 STR_POOL = ['a', 'b', 'c', 'Alice', 'Bob', 'carol', 'n10', 'n2', 'n1', 'Z', 'x_y', 'node-7', 'q', 'A']
 DELIMS = [',', '\t', ' ', ';']
+STR_PRELUDE = 'From Coq Require Import String Ascii.'
+
+
+PER_CLASS = 2
+
+
+def report(ctx, site, what, **fields):
+    """ctx.violation, keeping at most PER_CLASS unmatched violations per (site, defect / kind) class so that the
+    violations printed cover the distinct classes; repeats are counted in the evidence, known findings always forwarded."""
+    from ..common import _match
+    v = dict(site=site, what=what)
+    v.update(fields)
+    if any(_match(f.get('match', {}), v) for f in ctx.known):
+        return ctx.violation(site, what, **fields)
+    key = '%s/%s' % (site, fields.get('defect') or fields.get('kind') or 'other')
+    seen = ctx.extra.setdefault('violations_per_class', {})
+    seen[key] = seen.get(key, 0) + 1
+    if seen[key] <= PER_CLASS:
+        return ctx.violation(site, what, **fields)
+    return True
 
 
 # =============================================================================================
@@ -152,7 +172,7 @@ def oracle_check(ctx, site, case, impl_view, edges, fl, id_kind, family):
     """Property oracle on the implementation's output. Returns True when it holds."""
     exp = oracle_graph(edges, fl, id_kind)
     if impl_view.get('err'):
-        ctx.violation(site, 'implementation raises on a valid input', case=case, expected=_js(exp), observed=impl_view.get('detail'),
+        report(ctx, site, 'implementation raises on a valid input', case=case, expected=_js(exp), observed=impl_view.get('detail'),
                       defect=classify_error(impl_view.get('detail'), case), family=family)
         return False
     got = {(i, j): w for i, j, w in impl_view['triples']}
@@ -177,7 +197,7 @@ def oracle_check(ctx, site, case, impl_view, edges, fl, id_kind, family):
         bad = {k for k in set(got) | set(exp['entries']) if got.get(k) != exp['entries'].get(k)}
         if all(exp['entries'].get(k) == 1 and got.get(k) == 2 and (k[1], k[0]) in exp['entries'] for k in bad):
             defect = 'unweighted_undirected_reciprocal'
-    ctx.violation(site, 'matrix / names differ from the specification (%s)' % ','.join(problems), case=case,
+    report(ctx, site, 'matrix / names differ from the specification (%s)' % ','.join(problems), case=case,
                   expected=_js(exp), observed=impl_view, defect=defect, family=family,
                   weighted=fl['weighted'], directed=fl['directed'], bipartite=fl['bipartite'])
     return False
@@ -192,8 +212,8 @@ def classify_error(detail, case):
         return 'scan_header_int_of_array'
     if kind == 'IndexError' and 'too many indices' in msg and case.get('n_rows') == 1 and case.get('numeric'):
         return 'single_row_numeric'
-    if kind == 'ValueError' and 'Some errors were detected' in msg and case.get('mixed_comments') and case.get('numeric'):
-        return 'mixed_comment_chars_numeric'
+    if kind == 'ValueError' and 'Some errors were detected' in msg and case.get('mixed_comments'):
+        return 'mixed_comment_chars'
     return 'other'
 
 
@@ -333,7 +353,7 @@ def part_paths(ctx, impl, rng, quick, root):
         cwd = os.path.join(root, c)
         exprs = ['is_within_with pc_function pc_norm_directory pc_norm_target %s %s %s' % (cstr(cwd), cstr(d), cstr(t))
                  for d, t in pairs]
-        model = coq_eval('c18path', ['Model.PathSafe', 'Gen.PathCheck'], exprs)
+        model = coq_eval('c18path', ['Base.Util', 'Model.PathSafe', 'Gen.PathCheck'], exprs, prelude=STR_PRELUDE)
         r = impl.call('c18', 'within', dict(cwd=cwd, pairs=pairs), timeout=60)
         got = r.get('ok') if 'ok' in r else [r] * len(pairs)
         for (d, t), mv, iv in zip(pairs, model, got):
@@ -343,14 +363,14 @@ def part_paths(ctx, impl, rng, quick, root):
             ctx.count('path:' + c, ('within', c, d, t), spec or (len(cd) > 0 and len(ct) > 0))
             case = dict(cwd='{ROOT}/' + c, directory=d, target=t)
             if iv != mv:
-                ctx.violation('is_within_directory', 'implementation differs from the model', case=case, expected=mv, observed=iv,
+                report(ctx, 'is_within_directory', 'implementation differs from the model', case=case, expected=mv, observed=iv,
                               kind='correspondence')
             if iv is not True and iv is not False:
-                ctx.violation('is_within_directory', 'raises', case=case, observed=iv, defect='other')
+                report(ctx, 'is_within_directory', 'raises', case=case, observed=iv, defect='other')
             elif iv != spec:
                 sib = iv and not spec and len(cd) > 0 and len(ct) >= len(cd) and ct[:len(cd) - 1] == cd[:-1] and \
                     ct[len(cd) - 1].startswith(cd[-1])
-                ctx.violation('is_within_directory', 'check differs from component-wise containment', case=case, expected=spec,
+                report(ctx, 'is_within_directory', 'check differs from component-wise containment', case=case, expected=spec,
                               observed=iv, defect='sibling_prefix_admitted' if sib else 'other')
         if pairs:
             ctx.sample(dict(kind='within', cwd='{ROOT}/' + c, directory=pairs[0][0], target=pairs[0][1], model=model[0], impl=got[0]))
@@ -397,7 +417,7 @@ def part_extract(ctx, impl, rng, quick, root):
         names = [m[0].replace('{ROOT}', sub) for m in mem]
         exprs.append('safe_extract_with pc_function pc_norm_directory pc_norm_target %s %s %s' %
                      (cstr(os.path.join(sub, cwd_rel)), cstr(path.replace('{ROOT}', sub)), clist(names, cstr)))
-    model = coq_eval('c18tar', ['Model.PathSafe', 'Gen.PathCheck'], exprs)
+    model = coq_eval('c18tar', ['Base.Util', 'Model.PathSafe', 'Gen.PathCheck'], exprs, prelude=STR_PRELUDE)
     dataset_rel = 'work/netset/foo'
     for (mem, fam, cwd_rel, path, mode), mv in zip(jobs, model):
         r = impl.call('c18', 'extract', dict(root=sub, cwd=cwd_rel, path=path, members=[list(m) for m in mem], mode=mode), timeout=60)
@@ -405,7 +425,7 @@ def part_extract(ctx, impl, rng, quick, root):
         case = dict(cwd='{ROOT}/' + cwd_rel, path=path, members=[list(m) for m in mem], mode=mode)
         ctx.count('tar:' + fam, ('extract', cwd_rel, path, tuple(mem)), True)
         if 'ok' not in r:
-            ctx.violation('safe_extract', 'harness worker failed on the archive', case=case, observed=r, defect='other')
+            report(ctx, 'safe_extract', 'harness worker failed on the archive', case=case, observed=r, defect='other')
             continue
         o = r['ok']
         cwd_abs = os.path.join(sub, cwd_rel)
@@ -417,27 +437,29 @@ def part_extract(ctx, impl, rng, quick, root):
         new = [f[0] for f in o['after']['files'] if f[0] not in before] + [d for d in o['after']['dirs'] if d not in before]
         escaped = [p for p in new if not (p == dataset_rel or p.startswith(dataset_rel + '/'))
                    and not is_prefix(p.split('/'), dataset_rel.split('/'))]
-        if accepted != mv:
-            ctx.violation('safe_extract', 'implementation differs from the model (accept/refuse)', case=case, expected=mv,
+        # an exception that is not the check's own refusal comes from tarfile itself (e.g. 'sub/../x' when sub is absent)
+        refused = (not accepted) and 'path traversal' in o['outcome'].get('msg', '')
+        if refused != (not mv):
+            report(ctx, 'safe_extract', 'implementation differs from the model (accept/refuse)', case=case, expected=mv,
                           observed=o['outcome'], kind='correspondence')
         if escaped:
             sib = all(e.startswith('work/netset/foo') for e in escaped)
-            ctx.violation('safe_extract', 'extraction wrote outside the dataset folder', case=case, expected='nothing outside ' + dataset_rel,
+            report(ctx, 'safe_extract', 'extraction wrote outside the dataset folder', case=case, expected='nothing outside ' + dataset_rel,
                           observed=dict(outcome=o['outcome'], written_outside=escaped),
                           defect='sibling_prefix_escape' if sib else 'escape')
-        elif not all_inside and accepted:
-            ctx.violation('safe_extract', 'a member resolving outside the folder was not refused', case=case,
+        elif not all_inside and not refused:
+            report(ctx, 'safe_extract', 'a member resolving outside the folder was not refused', case=case,
                           expected='exception', observed=o['outcome'], defect='not_refused')
         elif not all_inside and new:
-            ctx.violation('safe_extract', 'refusal left files behind', case=case, expected='no write', observed=new, defect='partial_write')
-        elif all_inside and not accepted:
-            ctx.violation('safe_extract', 'an archive staying inside the folder was refused', case=case, expected='extracted',
+            report(ctx, 'safe_extract', 'refusal left files behind', case=case, expected='no write', observed=new, defect='partial_write')
+        elif all_inside and refused:
+            report(ctx, 'safe_extract', 'an archive staying inside the folder was refused', case=case, expected='extracted',
                           observed=o['outcome'], defect='false_refusal')
-        elif all_inside:
+        elif all_inside and accepted:
             want = {'/'.join(t[len(sub.strip('/').split('/')):]) for t, m in zip(targets, mem) if m[1] == 'file'}
             have = {f[0] for f in o['after']['files']}
             if not want <= have:
-                ctx.violation('safe_extract', 'accepted members are missing after extraction', case=case, expected=sorted(want),
+                report(ctx, 'safe_extract', 'accepted members are missing after extraction', case=case, expected=sorted(want),
                               observed=sorted(have), defect='missing')
         if len(ctx.samples) < 4 and fam.startswith('outside'):
             ctx.sample(dict(kind='extract', case=case, model_accepts=mv, impl=o['outcome'], new_paths=new))
@@ -500,7 +522,7 @@ def part_edges(ctx, impl, rng, quick):
     for kind in ('int', 'str'):
         idx = [i for i, c in enumerate(cases) if c[5] == kind]
         vals = coq_eval('c18' + kind, ['Base.Util', 'Model.Parse'], [cases[i][4] for i in idx],
-                        prelude='From Coq Require Import String.\nOpen Scope string_scope.' if kind == 'str' else '')
+                        prelude=STR_PRELUDE)
         for i, v in zip(idx, vals):
             model[i] = conv_view(v)
     # implementation, diff, oracle
@@ -511,7 +533,7 @@ def part_edges(ctx, impl, rng, quick):
         recip = has_reciprocal(edges)
         ctx.count('%s:%s' % (site, fam), (fn, args), True)
         if {k: v for k, v in got.items() if k != 'detail'} != model[i]:
-            ctx.violation(site, 'implementation differs from the model', case=args, expected=model[i], observed=got,
+            report(ctx, site, 'implementation differs from the model', case=args, expected=model[i], observed=got,
                           kind='correspondence', family=fam)
         oracle_check(ctx, site, args, got, edges, fl, kind, fam)
         if i % 700 == 0:
@@ -563,7 +585,7 @@ def part_csv(ctx, impl, rng, quick, root):
         edges = [(a, b, (weights[i] if weights is not None else 1)) for i, (a, b) in enumerate(pairs)]
         r = impl.call('c18', 'csv_file', args, timeout=30)
         ctx.traces += 1
-        fam = 'csv:%s:%s:%s' % ('num' if numeric else 'str', {',': 'comma', '\t': 'tab', ' ': 'space', ';': 'semicolon'}[d], hk)
+        fam = 'csv:%s:%s' % ('num' if numeric else 'str', {',': 'comma', '\t': 'tab', ' ': 'space', ';': 'semicolon'}[d])
         ctx.count(fam, ('csv', text, sorted(fl.items(), key=str), how), True)
         got = conv_impl(r)
         ok = oracle_check(ctx, 'from_csv', case, got, edges, fl, id_kind, fam)
@@ -573,7 +595,7 @@ def part_csv(ctx, impl, rng, quick, root):
         ctx.traces += 1
         got2 = conv_impl(r2)
         if ok and {k: v for k, v in got.items() if k != 'bool'} != {k: v for k, v in got2.items() if k != 'bool'}:
-            ctx.violation('from_csv', 'file and list of its rows give different graphs', case=case, expected=got2, observed=got,
+            report(ctx, 'from_csv', 'file and list of its rows give different graphs', case=case, expected=got2, observed=got,
                           defect='other', family=fam)
         scan_cases.append((text, d, case, fam))
         if k % 50 == 0:
@@ -603,7 +625,7 @@ def part_csv(ctx, impl, rng, quick, root):
     # scan_header: model vs implementation on the same files
     delims_lit = clist(['\t', ',', ';', ' '], ascii_code)
     exprs = ['scan_header 100 %s ["#"%%char; "%%"%%char] %s' % (delims_lit, cstr(t)) for t, _, _, _ in scan_cases]
-    model = coq_eval('c18scan', ['Base.Util', 'Model.Parse'], exprs, prelude='From Coq Require Import String Ascii.')
+    model = coq_eval('c18scan', ['Base.Util', 'Model.Parse'], exprs, prelude=STR_PRELUDE)
     for (text, d, case, fam), mv in zip(scan_cases, model):
         r = impl.call('c18', 'scan_header', dict(root=sub, text=text), timeout=30)
         ctx.traces += 1
@@ -614,13 +636,13 @@ def part_csv(ctx, impl, rng, quick, root):
             exp = [hl, conv_char(dd), conv_char(cg), 'edge_list' if el else 'adjacency_list']
         if 'ok' in r:
             if r['ok'] != exp:
-                ctx.violation('scan_header', 'implementation differs from the model', case=dict(text=text), expected=exp,
+                report(ctx, 'scan_header', 'implementation differs from the model', case=dict(text=text), expected=exp,
                               observed=r['ok'], kind='correspondence', family=fam)
             if r['ok'][1] != d:
-                ctx.violation('scan_header', 'the delimiter of the file is not the one guessed', case=dict(text=text), expected=d,
+                report(ctx, 'scan_header', 'the delimiter of the file is not the one guessed', case=dict(text=text), expected=d,
                               observed=r['ok'], defect='other', family=fam)
         else:
-            ctx.violation('scan_header', 'implementation raises on a regular file', case=dict(text=text), expected=exp, observed=r,
+            report(ctx, 'scan_header', 'implementation raises on a regular file', case=dict(text=text), expected=exp, observed=r,
                           defect=classify_error(r, case), family=fam)
     shutil.rmtree(sub, ignore_errors=True)
 
@@ -682,17 +704,17 @@ def part_saveload(ctx, impl, rng, quick, root):
         nattr = len(data['items']) if data['kind'] == 'dataset' else 1
         ctx.count('save_load:' + ('dataset' if data['kind'] == 'dataset' else 'matrix'), ('sl', case), nattr > 0)
         if 'ok' not in r:
-            ctx.violation('save/load', 'round trip raises', case=case, observed=r, defect='other')
+            report(ctx, 'save/load', 'round trip raises', case=case, observed=r, defect='other')
             continue
         o = r['ok']
         if o['diffs']:
-            ctx.violation('save/load', 'loaded dataset differs from the saved one', case=case, expected='equal dataset',
+            report(ctx, 'save/load', 'loaded dataset differs from the saved one', case=case, expected='equal dataset',
                           observed=o['diffs'], defect='other')
         bundle = norm_components(os.path.join(sub, cwd_rel), folder.replace('{ROOT}', sub))
         bundle_rel = '/'.join(bundle[len(sub.strip('/').split('/')):])
         stray = [f[0] for f in o['fs']['files'] if not f[0].startswith(bundle_rel + '/')]
         if stray:
-            ctx.violation('save/load', 'save wrote outside the bundle folder', case=case, expected=bundle_rel, observed=stray, defect='other')
+            report(ctx, 'save/load', 'save wrote outside the bundle folder', case=case, expected=bundle_rel, observed=stray, defect='other')
         if k % 40 == 0:
             ctx.sample(dict(kind='save_load', case=case, files=[f[0] for f in o['fs']['files']], diffs=o['diffs']))
     shutil.rmtree(sub, ignore_errors=True)
@@ -735,14 +757,17 @@ def part_graphml(ctx, impl, rng, quick, root):
             colors.append(col or 'yellow')
             lines.append('<node id="%s">%s</node>' % (xml_escape(ids[i]), '<data key="d1">%s</data>' % col if col else ''))
         expect = {}
+        expect_nodefault = {}       # what one gets if the declared default weight is ignored (weight 1)
         for (i, j) in chosen:
             dattr = rng.choice([None, None, 'true', 'false'])
             und = default_undirected if dattr is None else dattr == 'false'
             w = rng.randint(1, 9) if wtype and rng.random() < 0.7 else None
             val = w if w is not None else (wdefault if wdefault else 1)
             expect[(i, j)] = val
+            expect_nodefault[(i, j)] = w if w is not None else 1
             if und:
                 expect[(j, i)] = val
+                expect_nodefault[(j, i)] = expect_nodefault[(i, j)]
             lines.append('<edge source="%s" target="%s"%s>%s</edge>' % (
                 xml_escape(ids[i]), xml_escape(ids[j]), ' directed="%s"' % dattr if dattr else '',
                 '<data key="d0">%d</data>' % w if w is not None else ''))
@@ -753,7 +778,7 @@ def part_graphml(ctx, impl, rng, quick, root):
         ctx.count('graphml:%s' % ('undirected' if default_undirected else 'directed'), ('graphml', text), len(chosen) > 0)
         case = dict(text=text)
         if 'ok' not in r:
-            ctx.violation('from_graphml', 'raises on a valid file', case=case, observed=r, defect='other')
+            report(ctx, 'from_graphml', 'raises on a valid file', case=case, observed=r, defect='other')
             continue
         o = r['ok']
         got = {(i, j): w for i, j, w in o['matrix']['triples']}
@@ -769,10 +794,14 @@ def part_graphml(ctx, impl, rng, quick, root):
             problems.append('names')
         if (o.get('node_attribute') or {}).get('color', {}).get('values') != colors:
             problems.append('node attribute')
+        defect = 'other'
+        if problems == ['edges/weights/direction'] and wdefault and \
+                {k2: float(v) for k2, v in got.items()} == {k2: float(v) for k2, v in expect_nodefault.items()}:
+            defect = 'graphml_weight_default_ignored'
         if problems:
-            ctx.violation('from_graphml', 'parsed graph differs from the file (%s)' % ', '.join(problems), case=case,
+            report(ctx, 'from_graphml', 'parsed graph differs from the file (%s)' % ', '.join(problems), case=case,
                           expected=dict(n=n, ids=None if canonical else ids, entries=sorted([i, j, w] for (i, j), w in expect.items()), colors=colors),
-                          observed=o, defect='other')
+                          observed=o, defect=defect)
         if k % 30 == 0:
             ctx.sample(dict(kind='graphml', text=text, impl=o))
     shutil.rmtree(sub, ignore_errors=True)
